@@ -1,9 +1,9 @@
 SPECIFICATION Spec
 CONSTANTS
   MaxOps = 3
-  MaxLen = 5
+  MaxLen = 3
   MaxSeats = 3
-  Nodes = {1, 2}
+  Nodes = {1}
   Modes = {"keygen", "signing"}
   SigningRetries = 1
   Variant = "contract"
